@@ -561,6 +561,10 @@ def run(m, tier):
         f.rule = "C17.R8"
     results = [r1_inclusion(m), r2_engine_identity(m, ctx), r3_overrides_reachable(m, ctx), r4_2008_only_unreachable(m),
                r5_2008_reachable(m), r6_globals(m, ctx), r7, r8, r9_override_inclusion(m), r10_no_alias_mutation(m), r11_intrinsic_inclusion(m)]
+    from rules import guard_rules
+    r12 = guard_rules.optional_keyword_rule(m, "C17.R12")
+    r12.title = "a 2003 matcher that skips an optional keyword records it (its 2008 override does, so otherwise the two parsers print different text for the same statement)"
+    results.append(r12)
     expl = ("Decides grammar inclusion at the level at which the 2008 grammar is assembled: every rule and alternative of the linked "
             "2003 registry is still reachable, in the same relative order, in the linked 2008 registry (550 rules); identity tests of "
             "the generic engine also name the 2008 overrides; 2003 code that builds an overridden class by Python name is covered by a "
